@@ -490,6 +490,11 @@ def _check(ctx):
                       witness=g.describe(w))
         for n, call in halfc:
             c = ctx.construct(q, call)
+            # a half-close ends the READ side only: the selectable stays registered for writing, what it still has buffered must go out
+            w = next((p_ for r in rw for p_ in [g.path([r], [n], strict=True, edge_ok=lambda a_, b_, l: l != "exc")] if p_ is not None), None)
+            ctx.check(w is None, "disconnect/half-close-keeps-writer", c,
+                      "the selectable is removed from the writers on the path that reports only readConnectionLost: the write side of a half-closed "
+                      "connection is never serviced again (buffered data is not sent, the connection does not finish closing)", witness=g.describe(w))
             ctx.check(implied(g, n, [{isread: True}], [{isread: False}]), "disconnect/half-close-only-read-side", c,
                       "a write-side loss is reported as readConnectionLost: the connection is never closed")
             ok = any(lab == "T" and "ConnectionDone" in src(g.node(t).ast) and f"{why}.__class__" in src(g.node(t).ast) for t, lab in g.edge_guards(n))
@@ -810,6 +815,8 @@ def _check(ctx):
 
 
 MUTANTS = [
+    Mutant("disconnect-writer-removed-up-front-also-on-half-close", PB, "        self.removeReader(selectable)\n        f = faildict.get(why.__class__)\n",
+           "        self.removeReader(selectable)\n        self.removeWriter(selectable)\n        f = faildict.get(why.__class__)\n", expect_rule="disconnect/half-close-keeps-writer"),
     Mutant("disconnect-canned-reason-replaced-by-fresh-failure", PB, "                self.removeWriter(selectable)\n                selectable.connectionLost(f)\n",
            "                self.removeWriter(selectable)\n                selectable.connectionLost(failure.Failure(why))\n", expect_rule="disconnect/reason"),
     Mutant("disconnect-selected-reason-inverted", PB,
